@@ -124,6 +124,13 @@ let impl_log (keys_i : (int * key) list) (wins : sexp list) : ev list =
                | None -> ())
             | _ -> ()) obs
       | _ -> ()) wins;
+  (* otherwise (a dial started outside a subscribe window): any subscriber with that endpoint/subprotocol/headers *)
+  List.iter (fun x -> match x with
+      | L [A "sdial"; d; e; p; h] when not (Hashtbl.mem ips (atoi d)) ->
+        (match List.find_opt (fun (_, k) -> let (e', p', h', _) = ints_of_key k in (e', p', h') = (atoi e, atoi p, atoi h)) keys_i with
+         | Some (_, k) -> let (_, _, _, ip) = ints_of_key k in Hashtbl.replace ips (atoi d) ip
+         | None -> ())
+      | _ -> ()) flat;
   let ipof d = try Hashtbl.find ips d with Not_found -> 99 in
   List.concat_map (impl_ev ipof) flat
 
